@@ -87,7 +87,7 @@ def pair(namelen: int, k: int, gen: bool, star: bool) -> bool:
                 with notrace():
                     res.append([norm_item(i) for i in pj.gen_parse(bytes(data))])
             else:
-                data = pj.rdf_serialize(items, phys, opts, entry="graph_serialize")
+                data = pj.rdf_serialize(items, phys, opts, entry=P.get("rentry", "graph_serialize"))
                 with notrace():
                     res.append(sorted(norm_item(i) for i in pj.rdf_parse(bytes(data), entry="to_graph")))
                 want = sorted(want)
